@@ -391,12 +391,17 @@ def shrink(case):
         c = dict(case)
         c["labels"] = list(range(case["n"]))
         yield c
-    used = {x for a in arcs for x in a[:2]}
     extra = [k for k in case["keys"] if k not in {a[0] for a in arcs}]
     if extra:
         c = dict(case)
         c["keys"] = [k for k in case["keys"] if k not in extra]
         yield c
+    # compact the node ids once nothing else refers to the unused ones (order of first use is kept)
+    used = sorted({x for a in arcs for x in a[:2]} | {case["s"], case["t"]} | set(case["keys"]))
+    if len(used) < case["n"] and case["labels"] == list(range(case["n"])):
+        m = {x: i for i, x in enumerate(used)}
+        yield {"n": len(used), "arcs": [(m[u], m[v], cp, w) for u, v, cp, w in arcs], "s": m[case["s"]], "t": m[case["t"]],
+               "labels": list(range(len(used))), "keys": [m[k] for k in case["keys"]]}
 
 
 def finding_keys(case, obs):
